@@ -412,6 +412,21 @@ def _check_views(viol, tag, res, n, simulated, single_execution=True):
         if total != len(res.readouts):
             viol.add("C15", "relative_frequency_total", "mismatch", tag, "the tallies of all subcircuits add up to %r, %d readouts were recorded" % (total, len(res.readouts)))
     keys = [format(k, "b").zfill(n)[::-1] for k in range(2**n)]
+    # a caller may hold the string-keyed views of all subcircuits at once: each must keep
+    # describing its own subcircuit while the others are requested
+    held = []
+    for sc in res.subcircuits:
+        h = {"relative_frequency": sc.relative_frequency_by_str}
+        if simulated:
+            h["simulated_probability"] = sc.simulated_probability_by_str
+            h["probability"] = sc.probability_by_str
+        held.append(h)
+    for i, sc in enumerate(res.subcircuits):
+        for nm, by_str in held[i].items():
+            by_int = list(getattr(sc, nm + "_by_int"))
+            if list(by_str.keys()) == keys and any(not (a == b) for a, b in zip(by_str.values(), by_int)):
+                viol.add("C15", nm + "_values", "mismatch", tag, "subcircuit %d: the string-keyed view obtained before the views of the other subcircuits were requested no longer matches the integer-indexed one" % i)
+                break
     for i, sc in enumerate(res.subcircuits):
         views = [("relative_frequency", sc.relative_frequency_by_int, sc.relative_frequency_by_str)]
         if simulated:
@@ -457,6 +472,10 @@ def encode_outputs(vals, n, enc, tape):
         e = enc
         if enc == "mixed":
             e = "int" if tape.chance(0.5) else "str"
+        if e == "np":
+            # integers as an instrument's driver hands them over: numpy integer scalars
+            out.append(np.array([v], dtype=(np.uint8 if v < 256 and tape.chance(0.3) else np.int64))[0])
+            continue
         out.append(v if e == "int" else format(v, "b").zfill(n)[::-1])
     return out
 
@@ -801,9 +820,12 @@ def execute(plan):
             old3 = seams.install_sampler(s3)
             try:
                 job = UnitarySerializedEmulator()(expand_macros(fill_in_let(expand_subcircuits(circuits["A"]))))
-                r1 = job.execute()
-                for sc in r1.subcircuits:  # read every view in between
-                    list(sc.relative_frequency_by_int), dict(sc.relative_frequency_by_str), dict(sc.simulated_probability_by_str)
+                abandon_first = plan.get("disturb_at", 0.5) < 0.5  # the abandoned execution is the job's very first one
+                r1 = None
+                if not abandon_first:
+                    r1 = job.execute()
+                    for sc in r1.subcircuits:  # read every view in between
+                        list(sc.relative_frequency_by_int), dict(sc.relative_frequency_by_str), dict(sc.simulated_probability_by_str)
                 if plan.get("disturb") and len(M.visits) >= 2:
                     # an execution abandoned after some shots, between the two complete ones
                     calls = [0]
@@ -825,6 +847,10 @@ def execute(plan):
                         probe("job_execution_abandoned")
                     finally:
                         seams.install_sampler(s3)
+                if r1 is None:
+                    r1 = job.execute()
+                    for sc in r1.subcircuits:
+                        list(sc.relative_frequency_by_int), dict(sc.relative_frequency_by_str), dict(sc.simulated_probability_by_str)
                 r2 = job.execute()
                 return r1, r2
             finally:
@@ -838,9 +864,11 @@ def execute(plan):
             check_views(viol, "job-2nd-execute", r2, n, simulated=True, single_execution=False)
             # C08 on the re-executed job: one readout per visit, in order, for this
             # execution too, and every subcircuit's tallies count exactly its own readouts
-            seq2 = [r.subcircuit.index for r in r2.readouts]
-            if seq2 != list(M.visits):
-                viol.add("C08", "visit_sequence", "mismatch", "job-2nd-execute", "got %r want %r" % (seq2[:20], list(M.visits)[:20]))
+            for which_, rr_ in (("job-1st-complete-execute", r1), ("job-2nd-execute", r2)):
+                seq2 = [r.subcircuit.index for r in rr_.readouts]
+                if seq2 != list(M.visits):
+                    viol.add("C08", "visit_sequence", "mismatch", which_, "got %r want %r" % (seq2[:20], list(M.visits)[:20]))
+                    break
             for i, sc in enumerate(r2.subcircuits):
                 want = np.zeros(2**n)
                 for r in sc.readouts:
@@ -864,6 +892,7 @@ def execute(plan):
         "int": encode_outputs(vals, n, "int", hw),
         "str": encode_outputs(vals, n, "str", hw),
         "mixed": encode_outputs(vals, n, "mixed", hw),
+        "np": encode_outputs(vals, n, "np", hw),
     }
     hist = {}
     # (without definitions an idle gate is a gate like any other and counts as using its
@@ -882,7 +911,7 @@ def execute(plan):
             msg = "parse without pulse definitions: %s: %s" % (oN["kind"], oN.get("exc"))
             viol.add("C08", "output_list_runs", oN["kind"], oN.get("where", ""), msg)
     for tag in [t for t in ("A", "B", "N") if t in circuits and circuits[t] is not None]:
-        encs = ("int", "str", "mixed") if tag == "A" else (plan["hw_encoding"],)
+        encs = ("int", "str", "mixed", "np") if tag == "A" else (plan["hw_encoding"],)
         if plan.get("many_shots"):
             encs = (plan["hw_encoding"],)
         for enc in encs:
@@ -945,6 +974,8 @@ def execute(plan):
         probe("hw_three_encodings")
         if not (hist[("A", "int")] == hist[("A", "str")] == hist[("A", "mixed")]):
             viol.add("C15", "hardware_encodings_agree", "mismatch", "A")
+        elif ("A", "np") in hist and hist[("A", "np")] != hist[("A", "int")]:
+            viol.add("C15", "hardware_encodings_agree", "mismatch", "A", "numpy integer scalars are read differently from (or rejected, unlike) the equal Python integers")
 
     # --- C09
     if has_sub and "B" in results:
